@@ -2,7 +2,7 @@
    Proofs/GraphP*.v. *)
 From Coq Require Import ZArith Bool List.
 Import ListNotations.
-From Verif Require Import Model.Val Model.Graph Proofs.GraphPBase Proofs.GraphPDfs Proofs.GraphPTopo Proofs.GraphPDep Proofs.GraphPBfs Proofs.GraphPLong.
+From Verif Require Import Model.Val Model.Graph Proofs.GraphPBase Proofs.GraphPDfs Proofs.GraphPTopo Proofs.GraphPDep Proofs.GraphPBfs Proofs.GraphPLong Proofs.GraphPEx.
 Open Scope Z_scope.
 
 (* every graph the constructor can build is well-formed; the constructor never raises *)
@@ -100,3 +100,52 @@ Print Assumptions C17_critical_path.
 Theorem C17_longest_path_cyclic : forall g w, wf g -> cyclic g -> longest_path_w w g = Err E_RUNTIME.
 Proof. exact longest_path_cyclic. Qed.
 Print Assumptions C17_longest_path_cyclic.
+
+(* sources / sinks / parents / children match the edges *)
+Theorem C17_sources : forall g, wf g -> forall x, In x (get_sources g) <-> In x (nodes g) /\ forall u, ~ edge g u x.
+Proof. exact sources_spec. Qed.
+Print Assumptions C17_sources.
+Theorem C17_sinks : forall g x, In x (get_sinks g) <-> In x (nodes g) /\ forall v, ~ edge g x v.
+Proof. exact sinks_spec. Qed.
+Print Assumptions C17_sinks.
+Theorem C17_parents_children : forall g, wf g -> forall n, In n (nodes g) ->
+  exists ps cs, get_parents g n = Ok ps /\ get_children g n = Ok cs /\
+    (forall u, In u ps <-> edge g u n) /\ (forall v, In v cs <-> edge g n v).
+Proof. exact parents_children_spec. Qed.
+Print Assumptions C17_parents_children.
+
+(* the hypotheses used above are satisfiable by a non-trivial graph (two sources, diamond, skip edge) *)
+Theorem C17_hypotheses_satisfiable : wf ex_g /\ acyclic ex_g /\ simple ex_g /\ nodes ex_g <> [] /\
+  depth_first ex_g (Some 0) = ([0; 3; 5; 2; 1], 0) /\
+  breadth_first ex_g None = ([0; 4; 1; 2; 3; 5], 0) /\
+  are_dependent ex_g 4 5 = Ok true /\ are_dependent ex_g 4 1 = Ok false /\ are_dependent ex_g 1 2 = Ok false /\
+  get_node_depth ex_g 3 true = Ok 3 /\ get_node_depth ex_g 3 false = Ok 2 /\
+  longest_path_w (fun n => if n =? 2 then 5 else 1) ex_g = Ok [0; 2; 3; 5] /\
+  critical_path (fun n => if n =? 2 then 5 else 1) ex_g = Ok 8 /\
+  get_longest_path ex_g None = Ok [0; 1; 3; 5].
+Proof. exact ex_hypotheses. Qed.
+Print Assumptions C17_hypotheses_satisfiable.
+Theorem C17_cyclic_satisfiable : wf ex_c /\ cyclic ex_c /\ topological_sort ex_c = Err E_RUNTIME /\
+  are_dependent ex_c 0 1 = Err E_RUNTIME /\ depth_first ex_c (Some 3) = ([3; 0; 1; 2], 0).
+Proof. exact ex_cyclic. Qed.
+Print Assumptions C17_cyclic_satisfiable.
+
+(* ---- statements that are FALSE of the code as written (findings, witnesses replayed on /repo by the check) *)
+(* "breadth_first yields every node once" fails when the mapping repeats a child (parallel edge) *)
+Theorem C17_bfs_once_parallel_edges_refuted :
+  exists g, wf g /\ acyclic g /\ exists l, breadth_first g None = (l, 0) /\ ~ NoDup l.
+Proof. exact bfs_once_parallel_edges_refuted. Qed.
+Print Assumptions C17_bfs_once_parallel_edges_refuted.
+(* "breadth_first(n) yields the nodes reachable from n" fails when a descendant also has an ancestor of n as parent *)
+Theorem C17_bfs_from_node_reachable_refuted :
+  exists g n x, wf g /\ simple g /\ acyclic g /\ reach g n x /\
+    exists l, breadth_first g (Some n) = (l, 0) /\ ~ In x l.
+Proof. exact bfs_from_node_reachable_refuted. Qed.
+Print Assumptions C17_bfs_from_node_reachable_refuted.
+(* with a zero weight the longest path need not start at a source / end at a sink (outside the property's
+   quantifier "positive weights"; the maximality part still holds: C17_longest_path_nonneg) *)
+Theorem C17_longest_path_zero_weight_source_refuted :
+  exists g w, wf g /\ acyclic g /\ (forall n, 0 <= w n) /\
+    exists p, longest_path_w w g = Ok p /\ parents_of g (hd 0 p) <> [].
+Proof. exact longest_path_zero_weight_source_refuted. Qed.
+Print Assumptions C17_longest_path_zero_weight_source_refuted.
